@@ -46,7 +46,7 @@ def cases(tier, seed):
                         for rep in ("int_e", "int_n", "int"):
                             yield dict(kind="knn", sub=list(sub), k=kn, red=red, rep=rep)
             for kn in range(1, k):
-                for proj in (False, True, 2):
+                for proj in (False, True, 2, 3):
                     for shape in ("1d", "2d"):
                         if shape == "2d" and k % 2:
                             continue
@@ -54,7 +54,7 @@ def cases(tier, seed):
                         if shape == "1d":
                             yield dict(kind="median_distance", sub=list(sub), k=kn, proj=proj, shape=shape, rep=("int_e", "int_n", "int")[(kn + len(sub)) % 3])
             if k <= (3 if tier == "quick" else 4):
-                for proj in (False, True, 2):
+                for proj in (False, True, 2, 3):
                     for form in ("array2d", "array1d", "grid1", "grid2"):
                         yield dict(kind="mask", sub=list(sub), proj=proj, form=form)
                         if form in ("array1d", "grid2"):
@@ -65,6 +65,11 @@ def cases(tier, seed):
 def _d2x4(q, p, aniso=False):
     """4 x squared distance as an exact integer (half-unit queries, integer data).
     aniso: False (no projection), True / 1 (anisotropic scaling (2e, 3n)), 2 (non-separable shear/rotation (e + n, e - n))."""
+    if aniso == 3:
+        # shrinking projection (e/2, n/2): distances are half the unprojected ones; returned in units of 16 x squared distance
+        dx = int(round(2 * (q[0] - p[0])))
+        dy = int(round(2 * (q[1] - p[1])))
+        return dx * dx + dy * dy
     if aniso == 2:
         dx = int(round(2 * (q[0] - p[0])))
         dy = int(round(2 * (q[1] - p[1])))
@@ -96,8 +101,14 @@ def _rot(e, n):
     return np.asarray(e) + np.asarray(n), np.asarray(e) - np.asarray(n)
 
 
+def _shrink(e, n):
+    # maps to "kilometres": projected distances are SMALLER than unprojected ones (seed C15-r3_1: a bounding-box pre-filter in
+    # unprojected units with maxdist in projected units)
+    return np.asarray(e) / 2.0, np.asarray(n) / 2.0
+
+
 def _projfn(proj):
-    return {1: _aniso, True: _aniso, 2: _rot}[proj]
+    return {1: _aniso, True: _aniso, 2: _rot, 3: _shrink}[proj]
 
 
 def run(case, rec):
@@ -185,11 +196,11 @@ def run(case, rec):
         gf = got.ravel()
         for i, p in enumerate(pts):
             others = sorted(_d2x4(p, q, proj) for j, q in enumerate(pts) if j != i)[:k]
-            dists = [math.sqrt(v) / 2 for v in others]
+            dists = [math.sqrt(v) / (4 if proj == 3 else 2) for v in others]
             m = len(dists) // 2
             want = dists[m] if len(dists) % 2 else (dists[m - 1] + dists[m]) / 2
             rec.check(abs(gf[i] - want) <= 8 * math.ulp(max(want, 1.0)), "median distance of point %s to its %d nearest OTHER points is %r, got %r" % (p, k, want, gf[i]))
-        rec.cls("median_distance/k=%d/%s" % (k, {0: "plain", 1: "aniso", 2: "rot"}[int(proj)]))
+        rec.cls("median_distance/k=%d/%s" % (k, {0: "plain", 1: "aniso", 2: "rot", 3: "shrink"}[int(proj)]))
         return
     if kind == "mask":
         proj, form = case["proj"], case["form"]
@@ -199,12 +210,13 @@ def run(case, rec):
             q = (float(qe[idx]), float(qn[idx]))
             mind[idx] = min(_d2x4(q, p, proj) for p in pts)
         distinct = sorted(set(mind.values()))
+        unit = 4 if proj == 3 else 2       # the integers are (unit * distance)^2
         thresholds = []
         for v in distinct:
             r = math.isqrt(v)
             if r * r == v:
-                thresholds.append(("eq", r / 2))  # exactly representable distance: closed ball must include it
-        roots = [math.sqrt(v) / 2 for v in distinct]
+                thresholds.append(("eq", r / unit))  # exactly representable distance: closed ball must include it
+        roots = [math.sqrt(v) / unit for v in distinct]
         for a, b in zip(roots[:-1], roots[1:]):
             thresholds.append(("mid", (a + b) / 2))
         thresholds.append(("mid", roots[-1] + 1.0))
@@ -217,7 +229,7 @@ def run(case, rec):
             kw["projection"] = _projfn(proj)
         for kind_t, t in thresholds:
             want = np.zeros(qe.shape, dtype=bool)
-            t4 = F(t) * F(t) * 4
+            t4 = F(t) * F(t) * unit * unit
             for idx, v in mind.items():
                 want[idx] = v <= t4
             if form.startswith("array"):
@@ -247,6 +259,6 @@ def run(case, rec):
                     ok = gv.shape == want.shape and bool(np.all(np.isnan(gv) == ~want)) and bool(np.all(gv[want] == np.asarray(src)[want]))
                     rec.check(ok, "grid form (variable %s, maxdist %r): blanked cells are not exactly the cells where the array form is False" % (name, t))
             rec.count("thresholds", 1)
-        rec.cls("mask/%s/%s" % (form, {0: "plain", 1: "aniso", 2: "rot"}[int(proj)]))
+        rec.cls("mask/%s/%s" % (form, {0: "plain", 1: "aniso", 2: "rot", 3: "shrink"}[int(proj)]))
         return
     raise ValueError(kind)
